@@ -443,3 +443,100 @@ Proof.
 Qed.
 
 End ReaderProofs.
+
+(* ---------- (b) the gate ---------- *)
+
+Section GateProofs.
+Variable cf : cfg.
+Hypothesis P3 : cP3 cf = true.
+
+Definition passed (p : sphase) : nat := match p with SPassed => 1 | _ => 0 end.
+
+Lemma count_frames_app : forall a b, count_frames (a ++ b) = count_frames a + count_frames b.
+Proof. intros a b. unfold count_frames. rewrite filter_app, app_length. reflexivity. Qed.
+
+(* one step of a paused sender: a frame is written only by a sender that had already passed its check,
+   and nobody passes the check *)
+Ltac inl := let x0 := fresh "x" in let Hx := fresh "Hx" in
+  intros x0 Hx; cbn in Hx; repeat (destruct Hx as [<-|Hx]; auto); try contradiction.
+
+Lemma sstep_paused : forall s e s' ws, s_pausing s = true -> e <> SResumeEv -> sstep cf s e = (s', ws) ->
+  s_pausing s' = true /\ count_frames ws + passed (s_ph s') <= passed (s_ph s) /\
+  (forall x, In x ws -> x = WFrame \/ x = WKeep \/ x = WStopErr).
+Proof.
+  intros [pa st p] e s' ws Hp Hne H; cbn [s_pausing s_stopped s_ph] in *; subst pa.
+  destruct e; try congruence; cbn [sstep s_pausing s_stopped s_ph] in H.
+  - destruct p as [|j|]; cbn [sphase_step] in H; try (inversion H; subst; cbn; repeat split; auto; inl).
+    unfold gate_enter in H. rewrite P3 in H. cbn [andb] in H.
+    destruct st; inversion H; subst; cbn; repeat split; auto; inl.
+  - destruct p as [|j|]; cbn [sphase_step] in H; try (inversion H; subst; cbn; repeat split; auto; inl).
+    destruct j as [|[|k]]; try (inversion H; subst; cbn; repeat split; auto; inl; fail);
+      unfold gate_enter in H; rewrite P3 in H; cbn [andb] in H;
+      destruct st; inversion H; subst; cbn; repeat split; auto; inl.
+  - destruct p as [|j|]; cbn [sphase_step] in H; inversion H; subst; cbn; repeat split; auto; inl.
+  - inversion H; subst; cbn. repeat split; auto. inl.
+  - inversion H; subst; cbn. repeat split; auto. inl.
+Qed.
+
+(* while pausing (no resume among the events, any number of ticks, calls, stops, repeated pauses) the
+   sender writes NO frame, except the single frame of a sender that was already past its pause check
+   when the pause began; everything else it writes is keep-alives *)
+Theorem gate_no_data : forall es s s' ws, s_pausing s = true -> ~ In SResumeEv es ->
+  srun cf s es = (s', ws) ->
+  count_frames ws + passed (s_ph s') <= passed (s_ph s) /\ s_pausing s' = true.
+Proof.
+  induction es as [|e es IH]; intros s s' ws Hp Hn H; cbn [srun] in H.
+  - inversion H; subst. cbn. split; [lia|exact Hp].
+  - destruct (sstep cf s e) as [s1 w] eqn:E1. destruct (srun cf s1 es) as [s2 ws2] eqn:E2.
+    inversion H; subst; clear H.
+    assert (He : e <> SResumeEv) by (intros ->; apply Hn; left; reflexivity).
+    destruct (sstep_paused s e s1 w Hp He E1) as (Hp1 & Hle & _).
+    destruct (IH s1 s' ws2 Hp1 (fun X => Hn (or_intror X)) E2) as (Hle2 & Hp2).
+    rewrite count_frames_app. split; [lia|exact Hp2].
+Qed.
+
+(* the check itself is passed only while NOT pausing *)
+Theorem gate_pass_not_pausing : forall s e s' ws, sstep cf s e = (s', ws) ->
+  s_ph s <> SPassed -> s_ph s' = SPassed -> s_pausing s = false /\ s_stopped s = false.
+Proof.
+  intros [pa st p] e s' ws H Hn Hp; cbn [s_pausing s_stopped s_ph] in *.
+  destruct pa; [|destruct st; [|auto]].
+  - destruct e; try (inversion H; subst; cbn in Hp; congruence).
+    + destruct (sstep_paused (mkS true st p) SCall s' ws eq_refl ltac:(discriminate) H) as (_ & Hle & _).
+      cbn [s_ph] in Hle. rewrite Hp in Hle. destruct p; cbn in Hle; try lia. congruence.
+    + destruct (sstep_paused (mkS true st p) STick s' ws eq_refl ltac:(discriminate) H) as (_ & Hle & _).
+      cbn [s_ph] in Hle. rewrite Hp in Hle. destruct p; cbn in Hle; try lia. congruence.
+    + destruct (sstep_paused (mkS true st p) SWrite s' ws eq_refl ltac:(discriminate) H) as (_ & Hle & _).
+      cbn [s_ph] in Hle. rewrite Hp in Hle. destruct p; cbn in Hle; try lia. congruence.
+  - exfalso. destruct e; cbn [sstep s_pausing s_stopped s_ph] in H;
+      try (inversion H; subst; cbn in Hp; congruence);
+      destruct p as [|[|[|k]]|]; cbn [sphase_step] in H; unfold gate_enter in H; rewrite ?P3 in H; cbn [andb] in H;
+      inversion H; subst; cbn in Hp; congruence.
+Qed.
+
+(* after the resume the pending frame passes the gate at the sender's next wake-up: within one sleep *)
+Theorem gate_resumes : forall j, j <= cGL cf ->
+  exists k, k <= Nat.max 1 (cGL cf) /\
+    srun cf (mkS false false (SSleep j)) (repeat STick k) = (mkS false false SPassed, []) /\
+    srun cf (mkS false false SPassed) [SWrite] = (mkS false false SIdle, [WFrame]).
+Proof.
+  intros j Hj.
+  assert (Hgo : forall j, exists k, k <= Nat.max 1 j /\
+            srun cf (mkS false false (SSleep j)) (repeat STick k) = (mkS false false SPassed, [])).
+  { induction j0 as [|j0 IH].
+    - exists 1. split; [lia|]. cbn. unfold gate_enter. rewrite P3. reflexivity.
+    - destruct j0 as [|j1].
+      + exists 1. split; [lia|]. cbn. unfold gate_enter. rewrite P3. reflexivity.
+      + destruct IH as (k & Hk & Hrun). exists (S k). split; [lia|].
+        cbn [repeat srun sstep sphase_step s_pausing s_stopped s_ph]. rewrite Hrun. reflexivity. }
+  destruct (Hgo j) as (k & Hk & Hrun). exists k. split; [lia|]. split; [exact Hrun|reflexivity].
+Qed.
+
+(* while pausing a sender at the gate writes one keep-alive per wake-up (every cGL ticks) *)
+Lemma gate_keepalive_each_wake : forall j, j <= 1 ->
+  sstep cf (mkS true false (SSleep j)) STick = (mkS true false (SSleep (cGL cf)), [WKeep]).
+Proof.
+  intros [|[|j]] Hj; try lia; cbn; unfold gate_enter; rewrite P3; reflexivity.
+Qed.
+
+End GateProofs.
